@@ -431,7 +431,7 @@ func (gangEngine) Generate(p *sim.Plan, g *sim.Rng) {
 			if len(pods) > 0 {
 				add(gvOp{K: "pod_update", P: pods[g.Intn(len(pods))], Resync: g.Bool(0.25)})
 			}
-		case x < 75:
+		case x < 73:
 			if len(pods) > 0 {
 				add(gvOp{K: "pod_delete", P: pods[g.Intn(len(pods))], Tomb: g.Bool(0.2)})
 			}
@@ -493,8 +493,8 @@ func ivOverlaps(iv gvIv, t0, now uint64) bool {
 }
 
 type gvMinVer struct {
-	min                 int
-	storeSeq            uint64
+	min                  int
+	storeSeq             uint64
 	delivStart, delivEnd uint64
 }
 
@@ -581,10 +581,12 @@ type gvHandle struct {
 
 type gvNodeLister struct{}
 
-func (gvNodeLister) List() ([]fwktype.NodeInfo, error)                                  { return nil, nil }
-func (gvNodeLister) HavePodsWithAffinityList() ([]fwktype.NodeInfo, error)             { return nil, nil }
-func (gvNodeLister) HavePodsWithRequiredAntiAffinityList() ([]fwktype.NodeInfo, error) { return nil, nil }
-func (gvNodeLister) Get(string) (fwktype.NodeInfo, error)                              { return nil, fmt.Errorf("no node") }
+func (gvNodeLister) List() ([]fwktype.NodeInfo, error)                     { return nil, nil }
+func (gvNodeLister) HavePodsWithAffinityList() ([]fwktype.NodeInfo, error) { return nil, nil }
+func (gvNodeLister) HavePodsWithRequiredAntiAffinityList() ([]fwktype.NodeInfo, error) {
+	return nil, nil
+}
+func (gvNodeLister) Get(string) (fwktype.NodeInfo, error) { return nil, fmt.Errorf("no node") }
 
 type gvSharedLister struct{}
 
@@ -644,21 +646,21 @@ func (h *gvHandle) Scheduler() frameworkext.Scheduler { return gvScheduler{h.s} 
 
 type gvScheduler struct{ s *gvSim }
 
-func (x gvScheduler) GetCache() frameworkext.SchedulerCache           { return nil }
+func (x gvScheduler) GetCache() frameworkext.SchedulerCache            { return nil }
 func (x gvScheduler) GetSchedulingQueue() frameworkext.SchedulingQueue { return gvQueue{x.s} }
 func (x gvScheduler) StopEverything() <-chan struct{}                  { return nil }
 
 // gvQueue is what the gang cache sees of the scheduling queue: only Activate is used.
 type gvQueue struct{ s *gvSim }
 
-func (q gvQueue) Add(klog.Logger, *corev1.Pod)             {}
+func (q gvQueue) Add(klog.Logger, *corev1.Pod)                 {}
 func (q gvQueue) Update(klog.Logger, *corev1.Pod, *corev1.Pod) {}
-func (q gvQueue) Delete(*corev1.Pod)                       {}
+func (q gvQueue) Delete(*corev1.Pod)                           {}
 func (q gvQueue) AddUnschedulableIfNotPresent(klog.Logger, *framework.QueuedPodInfo, int64) error {
 	return nil
 }
-func (q gvQueue) SchedulingCycle() int64                                                  { return int64(q.s.cycles) }
-func (q gvQueue) AssignedPodAdded(klog.Logger, *corev1.Pod)                               {}
+func (q gvQueue) SchedulingCycle() int64                                                         { return int64(q.s.cycles) }
+func (q gvQueue) AssignedPodAdded(klog.Logger, *corev1.Pod)                                      {}
 func (q gvQueue) AssignedPodUpdated(klog.Logger, *corev1.Pod, *corev1.Pod, fwktype.ClusterEvent) {}
 func (q gvQueue) MoveAllToActiveOrBackoffQueue(klog.Logger, fwktype.ClusterEvent, interface{}, interface{}, frameworkext.PreEnqueueCheck) {
 }
@@ -690,6 +692,9 @@ func (w *gvWP) Allow(plugin string) {
 	s.r.Event("allow %s signal=%q", w.name, w.signal)
 	if w.signal != "" {
 		s.r.Probe("allow-after-signal")
+		if w.signal == "reject" && w.by == "timeout" {
+			s.r.Probe("allow-lost-race-with-permit-timeout")
+		}
 		return
 	}
 	s.checkRelease(w.name, w.g, "allow")
@@ -1572,15 +1577,21 @@ func (s *gvSim) runPhase(burst []gvOp, final bool) {
 				continue
 			}
 			if op.K == "pod_delete_inflight" {
-				var cand []string
+				var cand, hot []string
 				for n, m := range s.mp {
-					if m.permitted && s.st.pods[n] != nil {
+					if sp := s.st.pods[n]; m.permitted && sp != nil {
 						cand = append(cand, n)
+						if sp.node != "" { // the bind call was applied, PostBind / Unreserve has not run yet
+							hot = append(hot, n)
+						}
 					}
 				}
 				if len(cand) == 0 {
 					r.OpSkipped()
 					continue
+				}
+				if len(hot) > 0 && r.Flip(0.7) {
+					cand = hot
 				}
 				sort.Strings(cand)
 				op.K, op.P = "pod_delete", cand[r.Choose(len(cand))]
